@@ -184,10 +184,10 @@ func readZipFile(zf *zip.File) ([]byte, error) {
 
 func verifyCatalog(zf *zip.File, sig *AppxSignature) error {
 	if zf == nil {
-		if sig.IsBundle {
-			return nil
-		}
-		return errors.New("missing security catalog")
+		// The catalog is optional: it is only written for packages that contain PE
+		// files. verifyFile has already checked that the AXCI digest and the catalog
+		// are either both present or both absent.
+		return nil
 	}
 	blob, err := readZipFile(zf)
 	if err != nil {
